@@ -270,9 +270,10 @@ Qed.
 Definition no_ext_fail (sched : list label) : Prop :=
   forall l, In l sched -> match l with LFailCtx _ => False | _ => True end.
 
-Definition Culprit (s : state) : Prop :=
+Definition CulpritX (X : ctxid -> Prop) (s : state) : Prop :=
   forall c, ctx_failed c s = true ->
-    exists t, In t (tasks s) /\ t_ctx t = c /\ (t_st t = Closing \/ t_st t = Finished false).
+    (exists t, In t (tasks s) /\ t_ctx t = c /\ (t_st t = Closing \/ t_st t = Finished false)) \/ X c.
+Definition Culprit (s : state) : Prop := CulpritX (fun _ => False) s.
 
 Lemma in_upd_intro n st ts t :
   find_task n ts = Some t -> In (set_status st t) (upd n st ts).
@@ -315,18 +316,19 @@ Proof.
   - specialize (Hc l (or_introl eq_refl)). destruct l; auto; contradiction.
 Qed.
 
-Definition Inv3 (s : state) : Prop := Inv s /\ Inv2 s /\ Culprit s.
+Definition Inv3X (X : ctxid -> Prop) (s : state) : Prop := Inv s /\ Inv2 s /\ CulpritX X s.
+Definition Inv3 (s : state) : Prop := Inv3X (fun _ => False) s.
 
-Lemma culprit_act s s' n t st :
-  Inv3 s -> T s n t -> is_finished (t_st t) = false ->
+Lemma culprit_act X s s' n t st :
+  Inv3X X s -> T s n t -> is_finished (t_st t) = false ->
   tasks s' = upd n st (tasks s) ->
   (forall c, ctx_failed c s' = true -> ctx_failed c s = true \/ (c = t_ctx t /\ st = Closing)) ->
   (t_st t = Closing -> ctx_failed (t_ctx t) s = true -> st = Finished false \/ st = Closing) ->
-  Culprit s'.
+  CulpritX X s'.
 Proof.
   intros (HI & HI2 & HC) HT Hnf Ht Hnew Hcl c Hc.
   destruct (Hnew c Hc) as [Hold | [-> ->]].
-  - destruct (HC c Hold) as [t0 (Hin & Hctx & Hs)].
+  - destruct (HC c Hold) as [[t0 (Hin & Hctx & Hs)] | HX]; [|right; exact HX]. left.
     destruct (N.eqb (t_name t0) n) eqn:E.
     + apply N.eqb_eq in E. pose proof (in_find _ _ _ (inv_nodup _ HI2) Hin E) as F.
       unfold T in HT. rewrite HT in F. inversion F; subst t0.
@@ -334,34 +336,37 @@ Proof.
       exists (set_status st t). split; [rewrite Ht; apply in_upd_intro; assumption|].
       split; [assumption|]. simpl. subst c. destruct (Hcl Hs Hold); auto.
     + exists t0. split; [|auto]. rewrite Ht. unfold upd. apply in_map_iff. exists t0. rewrite E. auto.
-  - exists (set_status Closing t). split; [rewrite Ht; apply in_upd_intro; assumption|].
+  - left. exists (set_status Closing t). split; [rewrite Ht; apply in_upd_intro; assumption|].
     split; [reflexivity|]. left. reflexivity.
 Qed.
 
-Lemma tr_inv3 s s' : Inv3 s -> tr false s s' -> Inv3 s'.
+Lemma tr_inv3X X s s' : Inv3X X s -> tr false s s' -> Inv3X X s'.
 Proof.
   intros H3 Htr. pose proof H3 as (HI & HI2 & HC).
   split; [eapply tr_inv; eauto|]. split; [eapply tr_inv2; eauto|].
   destruct Htr.
-  - intros c Hc. destruct (HC c Hc) as [t0 (A & B & C)]. exists t0. auto.
-  - intros c0 Hc. destruct (HC c0 Hc) as [t0 (A & B & C)]. exists t0. simpl. split; [apply in_or_app; auto|auto].
+  - intros c Hc. destruct (HC c Hc) as [[t0 (A & B & C)]|HX]; [left; exists t0; auto | right; exact HX].
+  - intros c0 Hc. destruct (HC c0 Hc) as [[t0 (A & B & C)]|HX]; [left; exists t0; simpl; split; [apply in_or_app; auto|auto] | right; exact HX].
   - discriminate.
-  - eapply (culprit_act s _ n t (Waiting (S i))); [exact H3 | eassumption | rewrite H0; reflexivity | reflexivity | auto | rewrite H0; discriminate].
-  - eapply (culprit_act s _ n t Closing); [exact H3 | eassumption | rewrite H0; reflexivity
+  - eapply (culprit_act X s _ n t (Waiting (S i))); [exact H3 | eassumption | rewrite H0; reflexivity | reflexivity | auto | rewrite H0; discriminate].
+  - eapply (culprit_act X s _ n t Closing); [exact H3 | eassumption | rewrite H0; reflexivity
         | simpl; rewrite fail_ctx_tasks; reflexivity | | rewrite H0; discriminate].
     intros c0 Hc. rewrite cf_set_st in Hc. apply ctx_failed_fail_inv in Hc as [->|Hc]; auto.
-  - eapply (culprit_act s _ n t (Running 0 PBefore)); [exact H3 | eassumption | rewrite H0; reflexivity | reflexivity | auto | rewrite H0; discriminate].
-  - eapply (culprit_act s _ n t Closing); [exact H3 | eassumption | rewrite H0; reflexivity | reflexivity | auto | rewrite H0; discriminate].
-  - eapply (culprit_act s _ n t (Running pc PIn)); [exact H3 | eassumption | rewrite H0; reflexivity | reflexivity | auto | rewrite H0; discriminate].
-  - eapply (culprit_act s _ n t (Running pc ph)); [exact H3 | eassumption | rewrite H0; reflexivity | reflexivity | auto | rewrite H0; discriminate].
-  - eapply (culprit_act s _ n t (Running (S pc) PBefore)); [exact H3 | eassumption | rewrite H0; reflexivity | reflexivity | auto | rewrite H0; discriminate].
-  - eapply (culprit_act s _ n t Closing); [exact H3 | eassumption | rewrite H0; reflexivity | reflexivity | auto | rewrite H0; discriminate].
-  - eapply (culprit_act s _ n t Closing); [exact H3 | eassumption | rewrite H0; reflexivity
+  - eapply (culprit_act X s _ n t (Running 0 PBefore)); [exact H3 | eassumption | rewrite H0; reflexivity | reflexivity | auto | rewrite H0; discriminate].
+  - eapply (culprit_act X s _ n t Closing); [exact H3 | eassumption | rewrite H0; reflexivity | reflexivity | auto | rewrite H0; discriminate].
+  - eapply (culprit_act X s _ n t (Running pc PIn)); [exact H3 | eassumption | rewrite H0; reflexivity | reflexivity | auto | rewrite H0; discriminate].
+  - eapply (culprit_act X s _ n t (Running pc ph)); [exact H3 | eassumption | rewrite H0; reflexivity | reflexivity | auto | rewrite H0; discriminate].
+  - eapply (culprit_act X s _ n t (Running (S pc) PBefore)); [exact H3 | eassumption | rewrite H0; reflexivity | reflexivity | auto | rewrite H0; discriminate].
+  - eapply (culprit_act X s _ n t Closing); [exact H3 | eassumption | rewrite H0; reflexivity | reflexivity | auto | rewrite H0; discriminate].
+  - eapply (culprit_act X s _ n t Closing); [exact H3 | eassumption | rewrite H0; reflexivity
         | simpl; rewrite fail_ctx_tasks; reflexivity | | rewrite H0; discriminate].
     intros c0 Hc. rewrite cf_emit, cf_set_st in Hc. apply ctx_failed_fail_inv in Hc as [->|Hc]; auto.
-  - eapply (culprit_act s _ n t (Finished (negb (ctx_failed (t_ctx t) s)))); [exact H3 | eassumption | rewrite H0; reflexivity | reflexivity | auto | ].
+  - eapply (culprit_act X s _ n t (Finished (negb (ctx_failed (t_ctx t) s)))); [exact H3 | eassumption | rewrite H0; reflexivity | reflexivity | auto | ].
     intros _ Hc. rewrite Hc. left. reflexivity.
 Qed.
+
+Lemma tr_inv3 s s' : Inv3 s -> tr false s s' -> Inv3 s'.
+Proof. apply tr_inv3X. Qed.
 
 Lemma Inv3_run root sched : no_ext_fail sched -> Inv3 (run false sched (init root)).
 Proof.
@@ -382,7 +387,7 @@ Proof.
   pose proof (manager_wait root sched) as [H1 H2]. fold s in H1, H2.
   assert (Ha : all_finished s = true) by (apply H1; congruence).
   rewrite (H2 r Hw). split.
-  - intros [t [Hin He]]. destruct (HC _ He) as [t0 (A & B & [C|C])]; [|eauto].
+  - intros [t [Hin He]]. destruct (HC _ He) as [[t0 (A & B & [C|C])]|[]]; [|eauto].
     unfold all_finished in Ha. rewrite forallb_forall in Ha. specialize (Ha _ A). rewrite C in Ha. discriminate.
   - intros [t [Hin Hs]]. exists t. split; [assumption|].
     pose proof (in_find _ _ _ (inv_nodup _ HI2) Hin eq_refl) as F.
